@@ -9,6 +9,7 @@ from dataclasses import replace
 
 from ..effects import Effects, org_str
 from ..families import is_observer
+from ..inline import inlined
 from ..model import AnalysisError, ClassInfo, FuncInfo, Program
 from ..report import Run
 
@@ -68,6 +69,7 @@ def copy_info(program: Program, c: ClassInfo, _memo: dict) -> CopyInfo:
 def _copy_of(program: Program, recv: ClassInfo, f: FuncInfo, _memo: dict) -> CopyInfo:
     info = CopyInfo()
     info.defined_in = f.cls
+    f = inlined(program, f)      # a re-copy loop kept in a private helper is read at its call site
     selfname = f.params[0]
     newvar = None
     for node in ast.walk(f.node):
@@ -209,6 +211,10 @@ def _generic_copy_loops(program: Program, recv: ClassInfo, f: FuncInfo, info: Co
         if kinds:
             info.dynamic_kinds |= kinds
             continue
+        if isinstance(it, ast.Name):
+            r_ = program.resolve_global(f.module, it.id)
+            if r_ and r_[0] == "const" and isinstance(r_[2], (ast.Tuple, ast.List)):
+                it = r_[2]
         if isinstance(it, (ast.Tuple, ast.List)) and all(isinstance(x, ast.Constant) and isinstance(x.value, str) for x in it.elts):
             info.recopied |= {x.value for x in it.elts}
             continue
@@ -299,7 +305,7 @@ def _alias_none_guard(guards: tuple) -> bool:
 
 # --------------------------------------------------------------------------- decorator shape
 def check_decorator(program: Program, run: Run) -> None:
-    f = program.func("utils.builder")
+    f = inlined(program, program.func("utils.builder"))
     wrapped = f.params[0]
     inner = [n for n in f.node.body if isinstance(n, ast.FunctionDef)]
     rets = [n.value.id for n in ast.walk(f.node) if isinstance(n, ast.Return) and isinstance(n.value, ast.Name)]
@@ -328,6 +334,22 @@ def check_decorator(program: Program, run: Run) -> None:
                             guarded_default_true = True
                     else:
                         guarded_default_true = True
+    def _is_copy_of_recv(c):
+        return (isinstance(c, ast.Call) and ((isinstance(c.func, ast.Attribute) and c.func.attr == "copy") or (isinstance(c.func, ast.Name) and c.func.id == "copy"))
+                and c.args and isinstance(c.args[0], ast.Name) and c.args[0].id == recv)
+
+    def _is_flag_test(t):
+        return (isinstance(t, ast.Call) and isinstance(t.func, ast.Name) and t.func.id == "getattr" and len(t.args) == 3
+                and isinstance(t.args[2], ast.Constant) and t.args[2].value is True and isinstance(t.args[1], ast.Constant) and t.args[1].value == "immutable")
+    if not (copyvar and guarded_default_true):
+        # statement form: if getattr(self, "immutable", True): x = copy.copy(self) else: x = self
+        for n in ast.walk(w):
+            if isinstance(n, ast.If) and _is_flag_test(n.test) and len(n.body) == 1 and isinstance(n.body[0], ast.Assign) and len(n.body[0].targets) == 1 \
+                    and isinstance(n.body[0].targets[0], ast.Name) and _is_copy_of_recv(n.body[0].value):
+                tgt = n.body[0].targets[0].id
+                if (len(n.orelse) == 1 and isinstance(n.orelse[0], ast.Assign) and isinstance(n.orelse[0].targets[0], ast.Name) and n.orelse[0].targets[0].id == tgt
+                        and isinstance(n.orelse[0].value, ast.Name) and n.orelse[0].value.id == recv):
+                    copyvar, guarded_default_true = tgt, True
     where = f.loc(w)
     run.ob("C01/R4 decorator copies receiver (copy.copy, immutable default True)", "utils.builder",
            bool(copyvar and guarded_default_true), where=where)
@@ -352,6 +374,15 @@ def check_decorator(program: Program, run: Run) -> None:
                 for r in n.body:
                     if isinstance(r, ast.Return) and isinstance(r.value, ast.Name) and r.value.id == copyvar:
                         ok_ret = True
+        # expression form: return <copy> if result is None else result
+        if isinstance(n, ast.Return) and isinstance(n.value, ast.IfExp):
+            t = n.value.test
+            if (isinstance(t, ast.Compare) and isinstance(t.ops[0], ast.Is) and isinstance(t.comparators[0], ast.Constant) and t.comparators[0].value is None
+                    and isinstance(n.value.body, ast.Name) and n.value.body.id == copyvar):
+                ok_ret = True
+            if (isinstance(t, ast.Compare) and isinstance(t.ops[0], ast.IsNot) and isinstance(t.comparators[0], ast.Constant) and t.comparators[0].value is None
+                    and isinstance(n.value.orelse, ast.Name) and n.value.orelse.id == copyvar):
+                ok_ret = True
     bad_ret = any(isinstance(n, ast.Return) and isinstance(n.value, ast.Name) and n.value.id == recv for n in ast.walk(w))
     run.ob("C01/R4 wrapper returns the copy when the method returns None", "utils.builder", ok_ret and not bad_ret, where=where)
     if not ok_ret or bad_ret:
